@@ -452,14 +452,34 @@ fn zops(len: usize, n: usize, fills: bool) -> Vec<ZOp> {
 pub fn zst<const N: usize>(ctx: &mut Ctx) {
     let fills = N <= 65537;
     let random_ops = ctx.args.num("ops", 20000);
+    let lean = ctx.args.flag("lean");
+    let mut cache: std::collections::HashMap<usize, Vec<ZOp>> = Default::default();
+    let mut lean_ctr = 0u64;
     // sweep over state descriptors
     for walk in 0..3usize {
         for pf in 0..=4usize {
             for pb in 0..=4usize {
                 for popf in 0..=2usize {
+                    if lean && (walk == 1 || pf % 2 == 1 || pb == 1 || pb == 2 || popf == 2) {
+                        continue;
+                    }
                     let (_, len) = build_z::<N>(pf, pb, popf, walk);
                     let live_base = live();
-                    for op in zops(len, N, fills) {
+                    let ops: &Vec<ZOp> = cache.entry(len).or_insert_with(|| zops(len, N, fills && !lean));
+                    for op in ops.iter() {
+                        if lean {
+                            // unwinding is very slow under a sanitizer: keep one documented panic in 16
+                            lean_ctr += 1;
+                            let invalid = match op {
+                                ZOp::Index(i) => *i >= len,
+                                ZOp::Swap(i, j) => *i >= len || *j >= len,
+                                ZOp::Drain(a, e, _, _) | ZOp::Iter(a, e, _, _) => !(*a <= *e && *e <= len),
+                                _ => false,
+                            };
+                            if invalid && lean_ctr % 16 != 0 {
+                                continue;
+                            }
+                        }
                         if !ctx.mine_next() {
                             continue;
                         }
